@@ -66,7 +66,7 @@ pub fn all() -> Vec<Prop> {
             engine_name: "E1-symstream",
             engine: crate::e1_symstream::run_c10,
             quick_runs: 100_000,
-            thorough_runs: 3_000_000,
+            thorough_runs: 1_500_000,
             rule: crate::e1_symstream::RULE_C10,
             real: REAL_SYMS,
             stub: &[
@@ -95,7 +95,7 @@ pub fn all() -> Vec<Prop> {
             engine_name: "E1-symstream",
             engine: crate::e1_symstream::run_c09,
             quick_runs: 100_000,
-            thorough_runs: 2_500_000,
+            thorough_runs: 1_500_000,
             rule: crate::e1_symstream::RULE_C09,
             real: REAL_SYMS,
             stub: &[
@@ -159,7 +159,7 @@ pub fn all() -> Vec<Prop> {
             engine_name: "E4-pipeline",
             engine: crate::e4_pipeline::run_c13,
             quick_runs: 3_000,
-            thorough_runs: 120_000,
+            thorough_runs: 40_000,
             rule: crate::e4_pipeline::RULE_C13,
             real: &[
                 "minidump, minidump-common, minidump-unwind, minidump-processor, breakpad-symbols built from /repo's working tree, release + overflow-checks",
@@ -192,7 +192,7 @@ pub fn all() -> Vec<Prop> {
             engine_name: "E4-pipeline",
             engine: crate::e4_pipeline::run_c03,
             quick_runs: 8_000,
-            thorough_runs: 300_000,
+            thorough_runs: 100_000,
             rule: crate::e4_pipeline::RULE_C03,
             real: &[
                 "minidump, minidump-common, minidump-unwind, minidump-processor, breakpad-symbols built from /repo's working tree, release + overflow-checks",
